@@ -151,6 +151,13 @@ def deviation_of_path(g, edge_ids, cls) -> str:
     return ""
 
 
+def group(dev: str, cls: str) -> str:
+    """Report class: deviation + forbidden class (Python objects other than the context pooled)."""
+    if cls.startswith("py:") and cls != "py:Wtp":
+        cls = "py:other-object"
+    return f"{dev or 'unexplained'}|{cls}"
+
+
 def run_probe(ctx, ex, g, k, p):
     """Install + #invoke the probe for TLC path p; True when the module really held the object."""
     try:
@@ -411,7 +418,7 @@ def run(tier: str) -> int:
                 if shape not in seen_shapes:
                     o.sample({"path": labels, "class": p["cls"], "probe_returned": pr["out"][:80]})
                 o.classify(case, f"a module obtains {p['cls']} ({g['nodes'][p['target']]['desc'][:60]}) via " + " -> ".join(labels),
-                           [dev] if dev else [], cls=f"{dev or 'unexplained'}|{p['cls']}")
+                           [dev] if dev else [], cls=group(dev, p["cls"]))
             else:
                 o.note_drift({"model_path_not_reproduced": labels, "class": p["cls"], "probe": pr["out"][:120]})
             seen_shapes.add(shape)
@@ -428,7 +435,7 @@ def run(tier: str) -> int:
                                 cls="GAP|" + a["name"])
                 else:
                     o.classify(case, f"attack {a['name']} succeeded: {'; '.join(res['evidence'])[:240]}",
-                               [a["dev"]] if a["dev"] else [], cls=f"{a['dev'] or 'unexplained'}|{reached[0] if reached else '?'}")
+                               [a["dev"]] if a["dev"] else [], cls=group(a["dev"], reached[0] if reached else "?"))
         o.extra["corpus"] = {"attacks": len(attacks), "succeeded": sorted(r["name"] for r in results if r["ok"]),
                              "gaps": reach["gaps"]}
         o.sample({"attack": results[0]["name"], "evidence": results[0]["evidence"]})
